@@ -158,6 +158,7 @@ static inline void __attribute__((always_inline)) myth_queue_push(myth_thread_qu
   int t = q->top;
   //read barrier
   myth_wsqueue_rbarrier();
+  MYTH_VERIF_POINT(MVP_Q_PUSH_A);
   if (t == q->size){
     //Acquire lock
     myth_wsqueue_lock_lock(&q->lock);
@@ -171,6 +172,7 @@ static inline void __attribute__((always_inline)) myth_queue_push(myth_thread_qu
       //Shift pointers
       int offset = (- q->base - 1) / 2;
       myth_assert(offset < 0);
+      MYTH_VERIF_POINT(MVP_Q_PUSH_MOVE);
       memmove(&q->ptr[q->base+offset], &q->ptr[q->base], 
 	      sizeof(myth_thread_t) * (q->top - q->base));
       q->top += offset;
@@ -181,8 +183,10 @@ static inline void __attribute__((always_inline)) myth_queue_push(myth_thread_qu
     myth_wsqueue_lock_unlock(&q->lock);
   }
   //Do not need to extend of move.
+  MYTH_VERIF_POINT(MVP_Q_PUSH_B);
   q->ptr[t] = th;
   myth_wsqueue_wbarrier();//Guarantee W-W dependency
+  MYTH_VERIF_POINT(MVP_Q_PUSH_C);
   q->top = t + 1;
 #if USE_LOCK || USE_LOCK_PUSH
   myth_spin_unlock_body(&q->m_lock);
@@ -208,10 +212,13 @@ static inline myth_thread_t __attribute__((always_inline)) myth_queue_pop(myth_t
   int top,base;
   top = q->top;
   top--;
+  MYTH_VERIF_POINT(MVP_Q_POP_A);
   q->top = top;
+  MYTH_VERIF_POINT(MVP_Q_POP_B);
   //Decrement and check top
   myth_wsqueue_rwbarrier();
   base = q->base;
+  MYTH_VERIF_POINT(MVP_Q_POP_C);
   if (base + 1 < top){
     ret = q->ptr[top];
     //q->ptr[top]=NULL;
@@ -223,6 +230,7 @@ static inline myth_thread_t __attribute__((always_inline)) myth_queue_pop(myth_t
   } else {
     myth_wsqueue_lock_lock(&q->lock);
     base = q->base;
+    MYTH_VERIF_POINT(MVP_Q_POP_SLOW);
     if (base <= top){//OK
       ret = q->ptr[top];
       q->ptr[top] = NULL;
@@ -292,12 +300,16 @@ static inline myth_thread_t myth_queue_take(myth_thread_queue_t q)
 #endif
   //Increment base
   b = q->base;
+  MYTH_VERIF_POINT(MVP_Q_TAKE_A);
   q->base = b + 1;
+  MYTH_VERIF_POINT(MVP_Q_TAKE_B);
   myth_wsqueue_rwbarrier();
   top = q->top;
+  MYTH_VERIF_POINT(MVP_Q_TAKE_C);
   if (b < top){
     myth_wsqueue_rbarrier();
     ret = q->ptr[b];
+    MYTH_VERIF_POINT(MVP_Q_TAKE_D);
     //q->ptr[b]=NULL;
     myth_wsqueue_lock_unlock(&q->lock);
 #if USE_LOCK || USE_LOCK_TAKE
@@ -328,9 +340,11 @@ static inline myth_thread_t myth_queue_peek(myth_thread_queue_t q)
   //if (!myth_wsqueue_lock_trylock(&q->lock))return NULL;
   //Increment base
   b = q->base;
+  MYTH_VERIF_POINT(MVP_Q_PEEK_A);
   top = q->top;
   if (b < top){
     myth_wsqueue_rbarrier();
+    MYTH_VERIF_POINT(MVP_Q_PEEK_B);
     ret = q->ptr[b];
     //myth_wsqueue_lock_unlock(&q->lock);
     return ret;
@@ -355,8 +369,10 @@ static inline int myth_queue_trypass(myth_thread_queue_t q,myth_thread_t th)
   else{
     int b;
     b = q->base;
+    MYTH_VERIF_POINT(MVP_Q_PASS_A);
     q->ptr[b-1] = th;
     myth_wsqueue_wbarrier();
+    MYTH_VERIF_POINT(MVP_Q_PASS_B);
     q->base--;
   }
   myth_wsqueue_lock_unlock(&q->lock);
@@ -371,6 +387,7 @@ static inline void myth_queue_pass(myth_thread_queue_t q,myth_thread_t th)
   int ret;
   do {
     ret = myth_queue_trypass(q,th);
+    if (ret == 0) MYTH_VERIF_SPIN(MVS_Q_PASS);
   } while (ret == 0);
 }
 
@@ -383,6 +400,7 @@ static inline void myth_queue_put(myth_thread_queue_t q, myth_thread_t th)
   myth_spin_lock_body(&q->m_lock);
 #endif
   myth_wsqueue_lock_lock(&q->lock);
+  MYTH_VERIF_POINT(MVP_Q_PUT_A);
   if (q->base == 0){
     /* queue underflow at the bottom. move the contents higher */
     if (q->top == q->size){
@@ -392,6 +410,7 @@ static inline void myth_queue_put(myth_thread_queue_t q, myth_thread_t th)
     } else {
       int offset = (q->size - q->top + 1) / 2;
       myth_assert(offset > 0);
+      MYTH_VERIF_POINT(MVP_Q_PUT_MOVE);
       memmove(&q->ptr[q->base + offset], &q->ptr[q->base],
 	      sizeof(myth_thread_t) * (q->top - q->base));
       q->top += offset;
@@ -403,6 +422,7 @@ static inline void myth_queue_put(myth_thread_queue_t q, myth_thread_t th)
   myth_assert(b > 0);
   b--;
   q->ptr[b] = th;
+  MYTH_VERIF_POINT(MVP_Q_PUT_B);
   q->base = b;
   myth_wsqueue_lock_unlock(&q->lock);
 #if USE_LOCK || USE_LOCK_PUSH
